@@ -77,7 +77,7 @@ def r2_sources(ctx, prog):
 
 
 def r3_matching(ctx, prog):
-    r = ctx.rule('C19.R3', 'typed template matching: match iff present, handled kind, same length, equal value', floor=30, engine='E1+E3 finite-domain')
+    r = ctx.rule('C19.R3', 'typed template matching for every kind an attribute can be stored as: match iff present, same length, equal value', floor=30, engine='E1+E3 finite-domain')
     f = prog.fn('SoftHSM::C_FindObjectsInit')
     ctx.analysed(f)
     pt, pc_ = param_name(f, 1), param_name(f, 2)
@@ -108,7 +108,8 @@ def r3_matching(ctx, prog):
     # empty template
     run({pc_: 0}, 'empty template', True)
     one = {pc_: 1}
-    kinds = {'boolean': r'isBooleanAttribute\(.*\)', 'ulong': r'isUnsignedLongAttribute\(.*\)', 'bytes': r'isByteStringAttribute\(.*\)'}
+    kinds = {'boolean': r'isBooleanAttribute\(.*\)', 'ulong': r'isUnsignedLongAttribute\(.*\)', 'bytes': r'isByteStringAttribute\(.*\)',
+             'mechset': r'isMechanismTypeSetAttribute\(.*\)', 'attrmap': r'isAttributeMapAttribute\(.*\)'}
 
     def kind_env(k):
         return {re.compile(rx): int(k == kk) for kk, rx in kinds.items()}
@@ -119,8 +120,28 @@ def r3_matching(ctx, prog):
     e = dict(one)
     e[re.compile(r'attributeExists\(operator\*\(\w+\),.*\)')] = 1
     e.update(kind_env('other'))
-    run(e, 'attribute of an unhandled kind (mechanism set / attribute map)', False)
+    run(e, 'attribute of no known kind', False)
     ex = {re.compile(r'attributeExists\(operator\*\(\w+\),.*\)'): 1}
+    # mechanism set (CKA_ALLOWED_MECHANISMS): the template value is an array of mechanism types, compared as a set; a length that is no multiple of the element size never matches
+    for tlen in (16, 12):
+        for eq in (0, 1):
+            e = dict(one)
+            e.update(ex)
+            e.update(kind_env('mechset'))
+            e.update({re.compile(T + r'\.ulValueLen'): tlen, re.compile(r'operator!=\(getMechanismTypeSetValue\(.*\),\w+\)'): 1 - eq, re.compile(r'operator==\(getMechanismTypeSetValue\(.*\),\w+\)'): eq})
+            run(e, 'mechanism set equal=%d template-len=%d' % (eq, tlen), tlen == 16 and bool(eq))
+    # attribute map (CKA_WRAP_TEMPLATE / CKA_UNWRAP_TEMPLATE): match iff the file-local comparison of the stored map with the template's attribute array says so
+    maphelpers = [c['callee'] for c in calls(f['body']) if c.get('callee') and '::' not in c['callee'] and any(short(x.get('callee')) == 'getAttributeMapValue' for a in c.get('args', []) for x in walk(a) if x.get('k') == 'Call')]
+    for eq in (0, 1):
+        e = dict(one)
+        e.update(ex)
+        e.update(kind_env('attrmap'))
+        for hname in set(maphelpers):
+            e[re.compile(r'%s(@\d+)?\(.*\)' % re.escape(hname))] = eq
+        if not maphelpers:
+            r.violation(f['qname'], 'attribute map equal=%d' % eq, 'an attribute that is stored as an attribute map is compared with nothing: an object cannot be found by CKA_WRAP_TEMPLATE / CKA_UNWRAP_TEMPLATE although the template equals its attribute', file=f['file'], line=f['line']) if eq else None
+            continue
+        run(e, 'attribute map equal=%d' % eq, bool(eq))
     # boolean
     for tlen in (1, 8, 0):
         for stored in (0, 1):
